@@ -12,7 +12,14 @@ import (
 func resetEnvModels() {
 	tickerTimers = map[*value]*timer{}
 	codecTable = map[*value]*codecEntry{}
+	resetBadger()
+	hookFns = map[string]value{}
 }
+
+// hookFns: Go function values registered by the harness (verifrt.Hook) that
+// environment stubs call back into, e.g. the factory of the raft node returned
+// by the stubbed etcd raft.StartNode/RestartNode.
+var hookFns map[string]value
 
 // ---------------------------------------------------------------- context
 
